@@ -31,8 +31,9 @@ AddNew(vs, new) == vs \cup { v \in new : ~\E w \in vs : w[1] = v[1] /\ w[2] = v[
 ObsViol(o, phase, mode, line) == { <<name, Class(name, T, o) \cup {phase, mode}, line>> : name \in Failing(T, o) }
 
 \* "it has the same head and state as a node that never crashed"
-NotWedged(e) == e.err2 = "" /\ e.obs.head = e.ref.head /\ e.obs.root = e.ref.root /\ e.obs.st
-WedgedClass(e) == IF e.err2 # "" THEN "further_block_rejected"
+NotWedged(e) == "panic" \notin DOMAIN e /\ e.err2 = "" /\ e.obs.head = e.ref.head /\ e.obs.root = e.ref.root /\ e.obs.st
+WedgedClass(e) == IF "panic" \in DOMAIN e THEN "panic_in_recovery"     \* the process dies while importing the blocks again
+                  ELSE IF e.err2 # "" THEN "further_block_rejected"
                   ELSE IF e.obs.head # e.ref.head THEN "different_head"
                   ELSE IF ~e.obs.st THEN "state_unavailable" ELSE "different_state"
 
@@ -63,8 +64,8 @@ Step ==
              /\ fired' = [fired EXCEPT !.Restarts = @ + 1]
              /\ UNCHANGED T
         [] e.ev = "recovered" ->
-             /\ viol' = AddNew(viol, ObsViol(e.obs, "recovered", e.mode, l)
-                                     \cup (IF NotWedged(e) THEN {} ELSE { <<"NotWedged", {WedgedClass(e), e.mode}, l>> }))
+             /\ viol' = AddNew(viol, (IF "panic" \in DOMAIN e THEN {} ELSE ObsViol(e.obs, "recovered", e.mode, l))
+                                     \cup (IF NotWedged(e) THEN {} ELSE { <<"NotWedged", {WedgedClass(e), "recovered", e.mode}, l>> }))
              /\ fired' = [fired EXCEPT !.Recovered = @ + 1]
              /\ UNCHANGED T
         [] OTHER -> UNCHANGED <<T, viol, fired>>
